@@ -229,6 +229,7 @@ pub struct RunResult {
     pub switches_in_build: u64,
     pub steps: u64,
     pub deadlock: bool,
+    pub lock_handovers: u64,
     pub site_hits: Vec<u64>,
 }
 
@@ -275,6 +276,7 @@ pub fn execute_run(spec: &RunSpec) -> RunResult {
         switches_in_build,
         steps,
         deadlock,
+        lock_handovers: shared.sched.lock_handovers(),
         site_hits: shared.site_hits.iter().map(|a| a.load(Ordering::Relaxed)).collect(),
     }
 }
